@@ -18,15 +18,33 @@ Section Forwarding.
   Notation ret := (ret cache).
   Notation local := (local cache cache_get zs).
 
-  (* the part after local resolution: forward the question *)
-  Definition forward_query (combined : list rr) (q : question) : RM rres :=
+  (* the part after local resolution: forward the question.  [rec] is
+     resolve_forwarding_notimeout (with the fuel left), [stack] the question
+     stack of this call. *)
+  Definition forward_query (rec : list question -> question -> RM rres) (stack : list question)
+             (combined : list rr) (q : question) : RM rres :=
     do om <- lift_t cache (query_nameserver o forward_address q true) ;;
     match om with
     | Some response =>
       let soa_rr := get_nxdomain_nodata_soa q response 0 in
       let rrs := m_answers response in
-      do _ <- insert_all cache cache_insert_all rrs ;;
-      ret (ROk (NonAuthoritative (prioritising_merge combined rrs) soa_rr))
+      match cut_rrs zs q rrs with
+      | Ok (Some (prefix, name)) =>
+        (* the forwarder's answer leads into a locally authoritative name *)
+        let cname_question := mkq name (q_type q) (q_class q) in
+        do _ <- insert_all cache cache_insert_all prefix ;;
+        let combined' := prioritising_merge combined prefix in
+        do r <- rec (stack ++ [q]) cname_question ;;            (* context.push_question(question) *)
+        match r with
+        | ROk resolved => ret (ROk (NonAuthoritative (combined' ++ resolved_rrs resolved) (resolved_soa_rr resolved)))
+        | RErr _ => ret (RErr (EDeadEnd cname_question))
+        end
+      | Ok None =>
+        do _ <- insert_all cache cache_insert_all rrs ;;
+        ret (ROk (NonAuthoritative (prioritising_merge combined rrs) soa_rr))
+      | Err _ | Panic => stop cache APanic
+      | OutOfFuel => stop cache AFuel
+      end
     | None => ret (RErr (EDeadEnd q))
     end.
 
@@ -40,15 +58,15 @@ Section Forwarding.
         do l <- local stack q ;;
         match l with
         | Some (LDone r) => ret (ROk r)
-        | Some (LPartial rrs) => forward_query rrs q
-        | Some (LDelegation _ _ _) => forward_query [] q
+        | Some (LPartial rrs) => forward_query (resolve_forwarding_notimeout f) stack rrs q
+        | Some (LDelegation _ _ _) => forward_query (resolve_forwarding_notimeout f) stack [] q
         | Some (LCname rrs cq) =>
           do r <- resolve_forwarding_notimeout f (stack ++ [q]) cq ;;
           match r with
           | ROk resolved => ret (ROk (NonAuthoritative (rrs ++ resolved_rrs resolved) (resolved_soa_rr resolved)))
           | RErr _ => ret (RErr (EDeadEnd cq))
           end
-        | None => forward_query [] q
+        | None => forward_query (resolve_forwarding_notimeout f) stack [] q
         end
     end.
 
